@@ -70,10 +70,11 @@ def mk_array(F, dtype, values, shape=None):
 # same whatever its past (stale cached attributes are exactly what this is after).
 AGE = None
 AGE_ROUTES = ('resize', 'resize_dtype', 'resize_nint', 'like', 'resize_signed_then_sizes', 'resize_signed_only', 'int_born',
-              'inplace', 'sticky_flags')
+              'inplace', 'sticky_flags', 'transposed')
 # 'inplace': the object already has the requested format, holds other values, is used by every kind of operator (anything those may
 #            cache about the value buffer is now warm), and then receives the codes under test by element-wise *in-place* writes
 #            (x.set_val(code, raw=True, index=i)); scalars fall back to 'resize'.
+# 'transposed': (2-D shapes) the object is the .T of an object of the transposed shape: same values, column-major value buffer.
 # 'sticky_flags': an ordinary object whose overflow and underflow flags were raised by an earlier write (sticky until reset());
 #            a result computed from it must be flagged only for what happens in the computation itself.
 
@@ -123,6 +124,16 @@ def raw_fxp(F, signed, n_word, n_frac, codes, shape=None, **kw):
     age = AGE
     if age == 'inplace' and (shape is None or shape == () or n_word >= 64):
         age = 'resize'
+    if age == 'transposed' and (shape is None or len(tuple(shape)) != 2 or n_word >= 64):
+        age = 'resize'
+    if age == 'transposed':
+        r, c = shape
+        cl = list(codes)
+        base = F.Fxp(None, signed, n_word, n_frac, **kw)
+        base.set_val(mk_array(F, 'int64' if signed else 'uint64', [cl[i * c + j] for j in range(c) for i in range(r)], (c, r)), raw=True)
+        x = base.T                       # a view of the values with the requested shape, not C-contiguous
+        x.reset()
+        return x
     if age == 'inplace':
         k = size_of(shape)
         dt = 'int64' if signed else 'uint64'
